@@ -287,8 +287,9 @@ def prims_cosh(self: TTensor) -> TTensor:
 def prims_device_put(
     a: TTensor,
     device: str = "unspecified",  # pylint: disable=unused-argument
+    non_blocking: bool = False,  # pylint: disable=unused-argument
 ) -> TTensor:
-    """device_put(Tensor a, Device device) -> Tensor"""
+    """device_put(Tensor a, Device device, bool non_blocking=False) -> Tensor"""
 
     # ONNX does not have the notion of a "device". So we just return the input
     return op.Identity(a)
